@@ -23,8 +23,15 @@ POOL = ["garbage line", "vim: set ft=changelog:", ";; Local variables:", "Local 
         "foo (1) unstable", "foo (2) unstable; urgency=low", "  * change", "", " ", "x", "Mon Jan 1 2001 A <a@b>", "1.0:"]
 
 
+def _version_of(b):
+    try:
+        return str(b.version)            # the public view (a Version object); invalid version strings raise here
+    except Exception:
+        return ("raw", b._raw_version)
+
+
 def blocks_of(cl):
-    return [(b.package, b._raw_version, b.distributions, b.urgency, list(b.changes()), b.author, b.date) for b in cl]
+    return [(b.package, _version_of(b), b.distributions, b.urgency, list(b.changes()), b.author, b.date) for b in cl]
 
 
 def normal_form_ok(real, cl, aea, t, **ctxinfo):
@@ -221,6 +228,11 @@ def run(ctx):
             for _ in range(rng.randint(1, 4)):
                 op = rng.choice(["new_block", "add_change", "author", "date", "distributions", "urgency", "version", "package"])
                 try:
+                    if rng.random() < 0.5 and len(cl) > 0:
+                        # reading must not change what a later assignment does (cached derived values ...)
+                        ops.append(["read all attributes"])
+                        blocks_of(cl)
+                        _ = (cl.version, cl.versions, cl.full_version, cl.upstream_version, cl.debian_version, cl.epoch, cl.package)
                     if op == "new_block" or len(cl) == 0:
                         kw = dict(package=rng.choice(["foo", "bar"]), version=rng.choice(["1.0-1", "2"]), distributions="unstable",
                                   urgency="low", author="A B <a@b>", date="Thu, 12 Dec 2006 12:23:34 +0000")
